@@ -9,7 +9,7 @@ from lib.coqterm import cN, cbool, cbytes, clist, copt, cpair
 
 ID = "C20"
 QUICK_N = 2000
-THOROUGH_N = 24000
+THOROUGH_N = 16000
 SHARD = 250
 COQ_PRELUDE = "From MV Require Import Model.ProxyAuth.\n"
 RULE = ("18% binascii.a2b_base64 / b2a_base64 inputs over a dictionary of alphabet runs, pads in every position, junk and "
